@@ -81,7 +81,7 @@ REGISTRY["C03"] = {
                    "trace-level accounting at the gateway (M flows released and N-min(N,M) surplus arrivals consumed per activation). Exhaustive over shapes "
                    "and orders, sampled over goroutine schedules. TestC03Skew: 1..3 tokens PER incoming flow of one gateway (2..3 incoming, 1..3 outgoing; several tasks merged by an exclusive "
                    "gateway in front of each incoming flow), answered in any order - in particular several tokens on one incoming flow before anything arrived on another; "
-                   "equal and unequal numbers per flow (tokens without a partner stay at the gateway, the instance does not complete)."),
+                   "equal and unequal numbers per flow (tokens without a partner stay at the gateway, the instance does not complete). TestC03Wide: joins with 31..130 incoming flows (around and beyond 32 / 64), 1..3 branch tasks held back at drawn positions (the last declared, the first declared, anywhere): nothing before the last of them is answered, one token afterwards."),
     "level_note": LOCKSTEP_TRUST,
     "technique": "bounded-exhaustive enumeration + rapid property test, lock-step differential against a token-game model",
     "rule": ("start -> fork(1->N) -> N tasks -> gateway under test (N->M) -> M tasks -> join(M->1) -> end, optionally inside a loop for re-entry. "
@@ -91,6 +91,7 @@ REGISTRY["C03"] = {
         {"name": "TestC03Table", "mode": "plain", "shards": {"quick": 1, "thorough": 1}},
         {"name": "TestC03Reentry", "checks": {"quick": 150, "thorough": 3000}, "shards": {"quick": 8, "thorough": 16}, "gomaxprocs": [4, 1, 2, 16]},
         {"name": "TestC03Skew", "checks": {"quick": 60, "thorough": 1500}, "shards": {"quick": 8, "thorough": 16}, "gomaxprocs": [4, 1, 2, 16]},
+        {"name": "TestC03Wide", "checks": {"quick": 8, "thorough": 150}, "shards": {"quick": 4, "thorough": 16}},
     ],
 }
 
